@@ -39,7 +39,7 @@ func genTree(r *core.Rand) []treeFile {
 	if r.Chance(1, 3) {
 		dirs = append(dirs, "src/.hid/")
 	}
-	exts := []string{"js", "css", "html", "json", "svg", "xml", "js", "css", "html", "htm", "mjs", "webmanifest", "tmpl", "txt", "bin", "md", "tpl"}
+	exts := []string{"js", "css", "html", "json", "svg", "xml", "js", "css", "html", "htm", "mjs", "webmanifest", "tmpl", "txt", "bin", "md", "tpl", "JS", "Css", "HTML"}
 	bases := []string{"app", "app", "main", "index", "data", "x", "lib.min", "a b", "ünï"}
 	seen := map[string]bool{}
 	var files []treeFile
@@ -81,7 +81,7 @@ func genTree(r *core.Rand) []treeFile {
 }
 
 func genContent(r *core.Rand, ext string) string {
-	kind := ext
+	kind := strings.ToLower(ext) // the content of X.JS is JavaScript whatever the tool makes of the name
 	switch ext {
 	case "htm", "tmpl":
 		kind = "html"
@@ -258,7 +258,7 @@ func genInvocation(r *core.Rand, files []treeFile) cliInv {
 			v.Match = []string{"*.js", "*.html"}
 			v.Filters = []string{"-**/app.*"}
 		default:
-			v.Filters = []string{"-**.js", "+**/main.js", "-**/deep/**"}
+			v.Filters = [][]string{{"-**.js", "+**/main.js", "-**/deep/**"}, {"+**.js", "-**/sub/**"}, {"-**", "+**/app.*", "-**.css"}, {"+**/sub/**", "-**.json", "-**.js"}}[r.Intn(4)]
 		}
 	case 17: // unknown extension named explicitly / missing input
 		if r.Chance(1, 2) {
@@ -379,6 +379,19 @@ func c19Fixed() []c19Case {
 	add("in-place-absolute", cliInv{Inputs: []string{"$ROOT/src/app.js"}, Output: "src/app.js"})
 	cs = append(cs, c19Case{Name: "in-place-html-failing-script", Files: []treeFile{{Path: "p.html", Data: c19Invalid["html"]}, {Path: "q.html", Data: html}},
 		Inv: cliInv{Inputs: []string{"p.html", "q.html"}, Output: "."}})
+	// ordered filter lists: the last matching pattern decides
+	vend := []treeFile{{Path: "src/app.js", Data: js}, {Path: "src/vendor/v.js", Data: js}, {Path: "src/vendor/lib/x.js", Data: js}, {Path: "src/vendor/lib/x.min.js", Data: js}, {Path: "src/vendor/lib/y.css", Data: css}}
+	for i, fl := range [][]string{{"-src/vendor/**", "+src/vendor/lib/**", "-**.min.js"}, {"+**.js", "-**/vendor/**"}, {"-**", "+**.js", "-**/lib/*.js", "+**/x.min.js"}, {"+**/lib/**", "-**.css"}} {
+		cs = append(cs, c19Case{Name: fmt.Sprintf("filter-order-%d", i), Files: vend, Inv: cliInv{Inputs: []string{"src/"}, Recursive: true, Filters: fl, Output: "out/"}})
+		cs = append(cs, c19Case{Name: fmt.Sprintf("filter-order-sync-%d", i), Files: vend, Inv: cliInv{Inputs: []string{"src/"}, Recursive: true, Sync: true, Filters: fl, Output: "out/"}})
+	}
+	// extensions in upper or mixed case
+	upper := []treeFile{{Path: "w/LEGACY.JS", Data: js}, {Path: "w/Style.Css", Data: css}, {Path: "w/page.HTML", Data: html}, {Path: "w/ok.js", Data: js}}
+	cs = append(cs, c19Case{Name: "upper-ext-dir", Files: upper, Inv: cliInv{Inputs: []string{"w/"}, Recursive: true, Output: "out/"}})
+	cs = append(cs, c19Case{Name: "upper-ext-sync", Files: upper, Inv: cliInv{Inputs: []string{"w/"}, Recursive: true, Sync: true, Output: "out/"}})
+	cs = append(cs, c19Case{Name: "upper-ext-in-place", Files: upper, Inv: cliInv{Inputs: []string{"w/"}, Recursive: true, Output: "w/"}})
+	cs = append(cs, c19Case{Name: "upper-ext-named", Files: upper, Inv: cliInv{Inputs: []string{"w/LEGACY.JS", "w/ok.js"}, Output: "out/"}})
+	cs = append(cs, c19Case{Name: "upper-ext-typed", Files: upper, Inv: cliInv{Inputs: []string{"w/"}, Recursive: true, Type: "js", Match: []string{"*.JS"}, Output: "out/"}})
 	add("many-to-stdout-rejected", cliInv{Inputs: []string{"src/app.js", "src/app.css"}})
 	add("flags-js", cliInv{Inputs: []string{"src/app.js"}, Flags: []string{"--js-keep-var-names"}})
 	add("flags-html", cliInv{Inputs: []string{"src/app.html"}, Flags: []string{"--html-keep-document-tags", "--html-keep-end-tags"}})
